@@ -29,6 +29,7 @@ def P(name):
 
 class Gen:
     def __init__(self, repo):
+        self.overrides = {}
         self.repo = repo
         self.lib = Source(os.path.join(repo, 'src/lib.rs'), 'src/lib.rs')
         self.rng = Source(os.path.join(repo, 'src/range.rs'), 'src/range.rs')
@@ -93,6 +94,25 @@ class Gen:
         self.rec(sl, oid, mod, kind)
         return text
 
+    def trait_impl(self, src, impl_re, header, main, oid, mod, kw, ty):
+        """one hand written trait impl: the method under contract (`main`) plus EVERY other method the block defines.  An overridden
+        provided method (`lt`, `ne`, `max`, `hash_slice`, ...) is what the binary runs for `<`, `!=`, ...; it is extracted verbatim and
+        Verus checks it against the trait's own specification (vstd: `lt == (partial_cmp == Some(Less))`, ...).  Its id is recorded
+        in `overrides`, and every property that needs `main` needs it too."""
+        lo, hi, names = self.impl_fns(src, impl_re)
+        if main not in names:
+            raise AnchorLost('%s in %s' % (main, impl_re))
+        parts = []
+        for n in names:
+            sl = fn_in(src, lo, hi, n, ty + '::' + n)
+            if n == main:
+                parts.append(self.inj(sl, oid, mod, kw))
+            else:
+                o2 = ty + '::' + n
+                parts.append(self.inj(sl, o2, mod, {}))
+                self.overrides[o2] = oid
+        return header + ' {\n' + '\n'.join(parts) + '\n}'
+
     def unit(self, uid, f):
         """run one extraction unit; a lost anchor loses that unit, not the whole file"""
         try:
@@ -104,7 +124,7 @@ class Gen:
     # ------------------------------------------------------------------ impl blocks: every fn, contracted or not
     def impl_fns(self, src, impl_re):
         lo, hi = impl_span(src, impl_re)
-        body = src.text[lo:hi]
+        body = src.code[lo:hi]
         names = []
         depth = 0
         i = 0
@@ -184,17 +204,30 @@ def build(repo, outdir, stub=(), nohints=()):
         pubify(sl)
         g.rec(sl, 'type ' + nm, 'root', 'type')
         tys.append((nm, sl))
-    m = re.search(r'^pub const MAX_SAFE_INTEGER: u64 = ([0-9_]+);', LIB.text, re.M)
+    m = re.search(r'^pub const MAX_SAFE_INTEGER: u64 = ([0-9_]+);', LIB.code, re.M)
     if not m:
         raise AnchorLost('const MAX_SAFE_INTEGER')
     maxsafe = m.group(0)
 
     root = [P('prelude.rs')]
-    root += [vdiff.text, ident.text, clone_impl('Identifier'), ver.text, clone_impl('Version')]
+    # A7 (`clone` returns an equal value) is an axiom about the DERIVED Clone only: a hand written `impl Clone` is extracted and has to
+    # prove `r == *self` itself (obligation of every property)
+    handwritten_clone = []
+    derived = {'Identifier': dl, 'Version': vdl}
+    derived.update({nm: derive_list(sl) for nm, sl in tys})
+    root += [vdiff.text, ident.text, ver.text]
+    for nm in ('Identifier', 'Version'):
+        if 'Clone' in derived[nm]:
+            root.append(clone_impl(nm))
+        else:
+            handwritten_clone.append((nm, LIB, 'm_version'))
     for nm, sl in tys:
         root.append(sl.text)
         if nm != 'Operation':
-            root.append(clone_impl(nm))
+            if 'Clone' in derived[nm]:
+                root.append(clone_impl(nm))
+            else:
+                handwritten_clone.append((nm, RNG, 'm_bound'))
     root.append(maxsafe + '\n')
     # error types used by the lifted closures of number() and range_set() (R11: doc comments and the attributes of the
     # thiserror / miette derive macros are stripped; only the shape of the types matters to the contracts)
@@ -257,6 +290,7 @@ impl OrdSpecImpl for Version { open spec fn obeys_cmp_spec() -> bool { true } op
         derive_model = derive_model.replace('Some(derived_ident_cmp(*self, *other))', 'Some(ident_cmp(*self, *other))').replace('open spec fn cmp_spec(&self, other: &Self) -> Ordering { derived_ident_cmp(*self, *other) }', 'open spec fn cmp_spec(&self, other: &Self) -> Ordering { ident_cmp(*self, *other) }')
     root.append(derive_model)
 
+    g.handwritten_clone = handwritten_clone
     # ---------------------------------------------------------------- m_order
     g.emit('m_order', P('order_spec.rs'))
     g.emit('m_order', P('order_glue.rs'))
@@ -267,22 +301,21 @@ impl OrdSpecImpl for Version { open spec fn obeys_cmp_spec() -> bool { true } op
         for tr, fnn in (('PartialEq', 'eq'), ('PartialOrd', 'partial_cmp'), ('Ord', 'cmp')):
             if tr in ident_handwritten:
                 def u(tr=tr, fnn=fnn):
-                    sl = fn_in_impl(LIB, r'^impl (?:cmp::|std::cmp::)?%s for Identifier \{' % tr, fnn, 'Identifier::' + fnn)
-                    g.emit('m_version', 'impl %s for Identifier {\n' % tr + g.inj(sl, 'Identifier::' + fnn, 'm_version', {}) + '\n}')
+                    g.emit('m_version', g.trait_impl(LIB, r'^impl (?:cmp::|std::cmp::)?%s for Identifier \{' % tr, 'impl %s for Identifier' % tr, fnn, 'Identifier::' + fnn, 'm_version', {}, 'Identifier'))
                 g.unit('Identifier::' + fnn, u)
         if 'Eq' not in dl:
             g.emit('m_version', 'impl Eq for Identifier {}')
 
     def u_eq():
-        g.emit('m_version', 'impl Eq for Version {}\nimpl PartialEq for Version {\n' + g.inj(fn_in_impl(LIB, r'^impl PartialEq for Version \{', 'eq', 'Version::eq'), 'Version::eq', 'm_version', V['eq']) + '\n}')
+        g.emit('m_version', 'impl Eq for Version {}\n' + g.trait_impl(LIB, r'^impl PartialEq for Version \{', 'impl PartialEq for Version', 'eq', 'Version::eq', 'm_version', V['eq'], 'Version'))
     g.unit('Version::eq', u_eq)
 
     def u_pcmp():
-        g.emit('m_version', 'impl cmp::PartialOrd for Version {\n' + g.inj(fn_in_impl(LIB, r'^impl cmp::PartialOrd for Version \{', 'partial_cmp', 'Version::partial_cmp'), 'Version::partial_cmp', 'm_version', V['partial_cmp']) + '\n}')
+        g.emit('m_version', g.trait_impl(LIB, r'^impl (?:std::)?(?:cmp::)?PartialOrd for Version \{', 'impl cmp::PartialOrd for Version', 'partial_cmp', 'Version::partial_cmp', 'm_version', V['partial_cmp'], 'Version'))
     g.unit('Version::partial_cmp', u_pcmp)
 
     def u_cmp():
-        g.emit('m_version', 'impl cmp::Ord for Version {\n' + g.inj(fn_in_impl(LIB, r'^impl cmp::Ord for Version \{', 'cmp', 'Version::cmp'), 'Version::cmp', 'm_version', V['cmp']) + '\n}')
+        g.emit('m_version', g.trait_impl(LIB, r'^impl (?:std::)?(?:cmp::)?Ord for Version \{', 'impl cmp::Ord for Version', 'cmp', 'Version::cmp', 'm_version', V['cmp'], 'Version'))
     g.unit('Version::cmp', u_cmp)
     g.emit('m_version', P('diff_spec.rs'))
     g.emit('m_version', P('hash_model.rs'))
@@ -290,7 +323,7 @@ impl OrdSpecImpl for Version { open spec fn obeys_cmp_spec() -> bool { true } op
     g.unit('impl Version', lambda: g.emit('m_version', g.impl_block(LIB, r'^impl Version \{', 'impl Version', tbl, 'Version', 'm_version', skip=('parse',))))
 
     def u_hash():
-        g.emit('m_version', 'impl std::hash::Hash for Version {\n' + g.inj(fn_in_impl(LIB, r'^impl std::hash::Hash for Version \{', 'hash', 'Version::hash'), 'Version::hash', 'm_version', V['hash']) + '\n}')
+        g.emit('m_version', g.trait_impl(LIB, r'^impl (?:std::hash::|hash::)?Hash for Version \{', 'impl std::hash::Hash for Version', 'hash', 'Version::hash', 'm_version', V['hash'], 'Version'))
     g.unit('Version::hash', u_hash)
 
     # R3: macro instantiation for u64 (verified here); the signed instance used by literals is i32 (contract proved by Kani, C18)
@@ -315,8 +348,8 @@ impl OrdSpecImpl for Version { open spec fn obeys_cmp_spec() -> bool { true } op
     g.emit('m_bound_spec', P('bound_spec.rs'))
     g.unit('impl Predicate', lambda: g.emit('m_bound', g.impl_block(RNG, r'^impl Predicate \{', 'impl Predicate', K.PREDICATE, 'Predicate', 'm_bound')))
     g.unit('impl Bound', lambda: g.emit('m_bound', g.impl_block(RNG, r'^impl Bound \{', 'impl Bound', K.BOUND, 'Bound', 'm_bound')))
-    g.unit('Bound::cmp', lambda: g.emit('m_bound', 'impl Ord for Bound {\n' + g.inj(fn_in_impl(RNG, r'^impl Ord for Bound \{', 'cmp', 'Bound::cmp'), 'Bound::cmp', 'm_bound', K.BOUND_ORD['cmp']) + '\n}'))
-    g.unit('Bound::partial_cmp', lambda: g.emit('m_bound', 'impl PartialOrd for Bound {\n' + g.inj(fn_in_impl(RNG, r'^impl PartialOrd for Bound \{', 'partial_cmp', 'Bound::partial_cmp'), 'Bound::partial_cmp', 'm_bound', {}) + '\n}'))
+    g.unit('Bound::cmp', lambda: g.emit('m_bound', g.trait_impl(RNG, r'^impl (?:std::)?(?:cmp::)?Ord for Bound \{', 'impl Ord for Bound', 'cmp', 'Bound::cmp', 'm_bound', K.BOUND_ORD['cmp'], 'Bound')))
+    g.unit('Bound::partial_cmp', lambda: g.emit('m_bound', g.trait_impl(RNG, r'^impl (?:std::)?(?:cmp::)?PartialOrd for Bound \{', 'impl PartialOrd for Bound', 'partial_cmp', 'Bound::partial_cmp', 'm_bound', {}, 'Bound')))
     g.unit('impl BoundSet', lambda: g.emit('m_bound', g.impl_block(RNG, r'^impl BoundSet \{', 'impl BoundSet', K.BOUNDSET, 'BoundSet', 'm_bound', pre=r1_split_or_guard)))
     g.emit('m_bound', P('fmt_model.rs'))
 
@@ -386,9 +419,16 @@ impl OrdSpecImpl for Version { open spec fn obeys_cmp_spec() -> bool { true } op
         sl = top_fn(RNG, 'intersect_all')
         # plumbing pin (R5): range() maps exactly this function over the separated comparator list
         rng_fn = top_fn(RNG, 'range').verbatim
-        if not re.search(r'separated\(0\.\., simple, space1\)', rng_fn) or not re.search(r'intersect_all\(&?\w+\)', rng_fn) or re.search(r'\.fold\(|\.push\(|\.retain\(|\.filter\(', rng_fn):
+        rng_code = top_fn(RNG, 'range').code
+        flat = re.sub(r'\s+', '', rng_code)
+        # the comparator list reaches intersect_all as the parser produced it: the closure is exactly `|x| intersect_all(&x)`
+        if len(re.findall(r'separated\(', flat)) != 1 or not re.search(r'Parser::map\(separated\(0\.\.,simple,space1\),\|(\w+)(?::Vec<Option<BoundSet>>)?\|\{?intersect_all\(&\1\);?\}?,?\)', flat):
             raise AnchorLost('range(): `Parser::map(separated(0.., simple, space1), |bs| intersect_all(&bs))`')
-        g.pins.append('range() = Parser::map(separated(0.., simple, space1), |bs| intersect_all(&bs))')
+        g.pins.append('range() = Parser::map(separated(0.., simple, space1), |bs| intersect_all(&bs)) -- the closure hands the list over untouched')
+        bs_fn = re.sub(r'\s+', '', top_fn(RNG, 'bound_sets').code)
+        if not re.search(r'Parser::map\(separated\(0\.\.,range,logical_or\),\|(\w+)(?::Vec<Vec<BoundSet>>)?\|\{?\1\.into_iter\(\)\.flatten\(\)\.collect\(\);?\}?,?\)', bs_fn):
+            raise AnchorLost('bound_sets(): `Parser::map(separated(0.., range, logical_or), |sets| sets.into_iter().flatten().collect())`')
+        g.pins.append('bound_sets() = Parser::map(separated(0.., range, logical_or), |sets| sets.into_iter().flatten().collect()) -- every alternative is kept')
         g.emit('m_conj', g.inj(sl, 'intersect_all', 'm_conj', K.INTERSECT_ALL, make_pub=True))
         # the closure of the other arm of range(): the empty range is `*`
         mk = re.search(r'Parser::map\(preceded\(space0, peek\(alt\(\(literal\("\|\|"\), eof\)\)\)\), \|_\| \{', rng_fn)
@@ -409,8 +449,8 @@ impl OrdSpecImpl for Version { open spec fn obeys_cmp_spec() -> bool { true } op
 
     def u_norm():
         blk = g.impl_block(RNG, r'^impl Partial \{', 'impl Partial', {'normalize': K.PARTIAL_NORMALIZE}, 'Partial', 'm_desugar')
-        pv = top_fn(RNG, 'partial_version').verbatim
-        if not re.search(r'\.normalize\(\)\)\s*\}\s*$', pv, re.S) or len(re.findall(r'Ok\(', pv)) != 1 or len(re.findall(r'PResult<Partial,', RNG.text)) != 1:
+        pv = top_fn(RNG, 'partial_version').code
+        if not re.search(r'\.normalize\(\)\)\s*\}\s*$', pv, re.S) or len(re.findall(r'Ok\(', pv)) != 1 or len(re.findall(r'PResult<Partial,', RNG.code)) != 1:
             raise AnchorLost('partial_version(): the only parser producing a Partial, ending in `Ok(Partial { .. }.normalize())`')
         g.pins.append('partial_version() returns Partial{..}.normalize() and is the only constructor of Partial')
         g.emit('m_desugar', blk)
@@ -451,7 +491,7 @@ impl OrdSpecImpl for Version { open spec fn obeys_cmp_spec() -> bool { true } op
         g.unit('primitive_desugar_' + op, u_prim)
 
     def u_hyphen():
-        hyf = top_fn(RNG, 'hyphen').verbatim
+        hyf = top_fn(RNG, 'hyphen').code
         mm = re.search(r'let (\w+) = opt\(partial_version\)\.parse_next\(input\)\?;.*?let (\w+) = partial_version\(input\)\?;\s*let \2 = match \2 \{.*?\n\s*Ok\((\w+)\)\s*\}', hyf, re.S)
         if not mm:
             raise AnchorLost('hyphen::parser: lower = opt(partial_version), upper = partial_version, .. Ok(bounds)')
@@ -466,7 +506,7 @@ impl OrdSpecImpl for Version { open spec fn obeys_cmp_spec() -> bool { true } op
 
     def u_number():
         f = top_fn(LIB, 'number')
-        body = f.verbatim
+        body = f.code
         mk = 'Parser::try_map(Parser::take(digit1), |raw| {'
         i = body.find(mk)
         if i < 0 or 'let copied = input.clone();' not in body:
@@ -477,10 +517,10 @@ impl OrdSpecImpl for Version { open spec fn obeys_cmp_spec() -> bool { true } op
         sl.rewrites.append('R5 closure body lifted into fn number_check(raw, copied)')
         # pins: every numeric component of a Partial / Version comes out of number()
         # (pins are syntactic and deliberately loose: they say which parser a number can come from, not how the combinators are written)
-        comp = top_fn(RNG, 'component').verbatim
+        comp = top_fn(RNG, 'component').code
         if not re.search(r'\bnumber\b', comp) or re.search(r'digit1|parse::<|\.parse\(\)|from_str', comp):
             raise AnchorLost('component(): numbers come from number() only')
-        pvf = top_fn(RNG, 'partial_version').verbatim
+        pvf = top_fn(RNG, 'partial_version').code
         if not re.search(r'\bcomponent\b', pvf) or re.search(r'\bnumber\b|digit1|parse::<|\.parse\(\)|from_str', pvf):
             raise AnchorLost('partial_version(): major/minor/patch come from component() only')
         g.pins.append('component() = alt(x_or_asterisk -> None, number -> Some); partial_version() takes major/minor/patch from component()')
@@ -498,7 +538,7 @@ impl OrdSpecImpl for Version { open spec fn obeys_cmp_spec() -> bool { true } op
         f = top_fn(LIB, 'identifier')
         body = f.verbatim
         mk = '|s: &str| {'
-        i = body.find(mk)
+        i = f.code.find(mk)
         if i < 0 or 'take_while(1.., |x: char| AsChar::is_alphanum(x as u8) || x == \'-\')' not in body:
             raise AnchorLost('identifier(): `Parser::map(take_while(1.., alnum or -), |s: &str| {..})`')
         k = i + len(mk) - 1
@@ -527,7 +567,7 @@ impl OrdSpecImpl for Version { open spec fn obeys_cmp_spec() -> bool { true } op
 
     def u_range_set():
         f = top_fn(RNG, 'range_set')
-        body = f.verbatim
+        body = f.code
         mk = 'Parser::try_map(bound_sets, |sets| {'
         i = body.find(mk)
         if i < 0:
@@ -536,7 +576,7 @@ impl OrdSpecImpl for Version { open spec fn obeys_cmp_spec() -> bool { true } op
         e = match_brace(body, k)
         sl = Slice(RNG, f.start + k, f.start + e, 'closure in range_set()')
         sl.rewrites.append('R5 closure body lifted into fn range_set_check(sets, input)')
-        if not re.search(r'pub fn parse<S: AsRef<str>>\(input: S\) -> Result<Self, SemverError> \{\s*let mut input = input\.as_ref\(\);\s*match range_set\.parse_next\(&mut input\) \{\s*Ok\(range\) => Ok\(range\),', RNG.text):
+        if not re.search(r'pub fn parse<S: AsRef<str>>\(input: S\) -> Result<Self, SemverError> \{\s*let mut input = input\.as_ref\(\);\s*match range_set\.parse_next\(&mut input\) \{\s*Ok\(range\) => Ok\(range\),', RNG.code):
             raise AnchorLost('Range::parse(): `match range_set.parse_next(&mut input) { Ok(range) => Ok(range), ..`')
         g.pins.append('Range::parse() returns what range_set yields; range_set = Parser::try_map(bound_sets, closure)')
         sig = "pub fn range_set_check<I>(sets: Vec<BoundSet>, input: I) -> (r: Result<Range, SemverParseError<I>>)\n    ensures (r is Err) <==> sets@.len() == 0, r matches Ok(x) ==> x.0@ == sets@,\n"
@@ -549,6 +589,38 @@ impl OrdSpecImpl for Version { open spec fn obeys_cmp_spec() -> bool { true } op
         g.emit('m_parse', sig + sl.text + '\n')
     if err_types_ok:
         g.unit('range_set_check', u_range_set)
+
+    # ---------------------------------------------------------------- hand written Clone impls (see root)
+    for (nm, src, mod) in g.handwritten_clone:
+        def u_clone(nm=nm, src=src, mod=mod):
+            oid = nm + '::clone'
+            g.emit(mod, g.trait_impl(src, r'^impl (?:std::clone::|clone::)?Clone for %s \{' % nm, 'impl Clone for %s' % nm, 'clone', oid, mod, dict(ret='r', contract='    ensures r == *self,'), nm))
+            g.overrides[oid] = '*'
+        before = len(g.lost_items)
+        g.unit(nm + '::clone', u_clone)
+        if len(g.lost_items) > before:
+            # no derive and no impl found where expected: fall back to the axiom so that the file still type checks; the unit stays lost
+            g.mods.setdefault(mod, []).append(clone_impl(nm))
+
+    # ---------------------------------------------------------------- impls of the core types the generator does not know
+    KNOWN_IMPL = [r'(?:fmt::|std::fmt::)?Display', r'(?:fmt::|std::fmt::)?Debug', r'(?:std::str::|str::)?FromStr', r'Serialize', r"Deserialize<'de>", r'(?:std::error::)?Error', r'Diagnostic',
+                  r'PartialEq', r'Eq', r'(?:std::)?(?:cmp::)?PartialOrd', r'(?:std::)?(?:cmp::)?Ord', r'(?:std::hash::|hash::)?Hash', r'(?:std::clone::|clone::)?Clone',
+                  r'(?:::std::convert::|std::convert::)?From<.*>']
+    CORE = ('Version', 'Identifier', 'VersionDiff', 'Predicate', 'Bound', 'BoundSet', 'Range', 'Partial', 'Operation')
+    for src in (LIB, RNG):
+        cut = re.search(r'^#\[cfg\(test\)\]', src.code, re.M)
+        body = src.code[:cut.start()] if cut else src.code
+        for m in re.finditer(r'^impl(?:<[^>]*>)?\s+(.+?)\s+for\s+(\w+)(?:<[^>]*>)?\s*\{', body, re.M):
+            tr, ty = m.group(1), m.group(2)
+            if ty not in CORE:
+                continue
+            if not any(re.fullmatch(k, tr) for k in KNOWN_IMPL):
+                g.lost_items.append(('impl ' + ty, 'an impl the contracts do not know: `impl %s for %s` (%s:%d); the operations of %s may not mean what the model says' % (tr, ty, src.rel if hasattr(src, 'rel') else '', body.count('\n', 0, m.start()) + 1, ty)))
+            # semantic traits must be the hand written / derived ones the model is built on
+            sem = re.sub(r'^(?:std::)?(?:cmp::|hash::|clone::)?', '', tr)
+            expected = {'Version': ('PartialEq', 'Eq', 'PartialOrd', 'Ord', 'Hash'), 'Bound': ('PartialOrd', 'Ord')}
+            if sem in ('PartialEq', 'Eq', 'PartialOrd', 'Ord', 'Hash') and sem not in expected.get(ty, ()) and not (ty == 'Identifier' and sem in ident_handwritten + ['Eq']):
+                g.lost_items.append(('impl ' + ty, 'hand written `impl %s for %s` where the model assumes the derived one' % (tr, ty)))
 
     # ---------------------------------------------------------------- m_props / m_canary
     g.emit('m_props', P('props.rs'))
@@ -602,6 +674,7 @@ impl OrdSpecImpl for Version { open spec fn obeys_cmp_spec() -> bool { true } op
         'file': path,
         'functions': g.functions,
         'inventory': inventory(repo, g.functions),
+        'overrides': g.overrides,
         'unsafe': [('%s:%d' % (rel, i)) for rel in ('src/lib.rs', 'src/range.rs') if os.path.exists(os.path.join(repo, rel)) for i, l in enumerate(open(os.path.join(repo, rel)).read().split('\n'), 1) if re.search(r'\bunsafe\b', l.split('//')[0])],
         'clauses': clauses,
         'lost_hints': g.lost_hints,
@@ -631,7 +704,8 @@ def inventory(repo, functions):
         path = os.path.join(repo, rel)
         if not os.path.exists(path):
             continue
-        text = open(path).read()
+        from xtract import mask_code
+        text = mask_code(open(path).read())
         cut = re.search(r'^#\[cfg\(test\)\]', text, re.M)
         body = text[:cut.start()] if cut else text
         for m in re.finditer(r'^[ \t]*(?:pub(?:\([^)]*\))?\s+)?(?:const\s+)?fn\s+(\w+)', body, re.M):
